@@ -1,6 +1,7 @@
 //! Runtime-monitoring harness for the smoltcp properties C01..C20.
 #![allow(clippy::all)]
 #![allow(dead_code)]
+pub mod gen;
 pub mod indep;
 pub mod mon;
 pub mod sim;
